@@ -33,7 +33,7 @@ Hypothesis ltb_negtrans : forall a b c, k_ltb K a b = false -> k_ltb K b c = fal
 Hypothesis eqb_refl : forall a, k_eqb K a a = true.
 
 Notation ltb := (k_ltb K).
-Notation mx := (k_max K).
+Notation mx := (k_inf K).
 
 (* the update formula keeps values below max_value *)
 Hypothesis upd_below_max : forall va vb md sa sb sx,
